@@ -20,6 +20,7 @@
 #include <cstdlib>
 #include <numeric>
 #include <pthread.h>
+#include <sys/time.h>
 #include <type_traits>
 #include <unistd.h>
 #include <utility>
@@ -328,12 +329,20 @@ template <class F> bool guarded(F&& f)
     ++g_traps;
     return false;
 }
-// the same with a watchdog: a call that does not return within a few seconds is recorded as a trap as well
+// the same with a watchdog: a call that burns a full second of CPU time without returning is recorded as a trap as well
+// (CPU time of this process, not wall-clock time: a loaded machine must not look like a hanging call)
+inline void cpu_timer(long ms)
+{
+    struct itimerval tv {};
+    tv.it_value.tv_sec  = ms / 1000;
+    tv.it_value.tv_usec = (ms % 1000) * 1000;
+    setitimer(ITIMER_VIRTUAL, &tv, nullptr);
+}
 template <class F> bool guarded_timed(F&& f)
 {
-    alarm(8);
+    cpu_timer(1000);
     bool const ok = guarded(f);
-    alarm(0);
+    cpu_timer(0);
     return ok;
 }
 
@@ -1124,14 +1133,14 @@ void* work(void* p)
     sigaltstack(&ss, nullptr);
     sigset_t alrm;
     sigemptyset(&alrm);
-    sigaddset(&alrm, SIGALRM);
+    sigaddset(&alrm, SIGVTALRM);
     pthread_sigmask(SIG_UNBLOCK, &alrm, nullptr);
     struct sigaction sa {};
     sa.sa_handler = on_trap;
     sa.sa_flags   = SA_NODEFER | SA_ONSTACK;
     sigaction(SIGFPE, &sa, nullptr);
     sigaction(SIGSEGV, &sa, nullptr);
-    sigaction(SIGALRM, &sa, nullptr);
+    sigaction(SIGVTALRM, &sa, nullptr);
     for (int s : {SIGABRT, SIGILL, SIGBUS}) { std::signal(s, on_fatal); }
 
     auto& a                = *static_cast<Args*>(p);
@@ -1162,10 +1171,10 @@ void* work(void* p)
 int main(int argc, char** argv)
 {
     Args a {argc, argv, 2};
-    // SIGALRM (watchdog) must reach the worker thread, whose jump buffer the handler uses: block it here
+    // SIGVTALRM (watchdog) must reach the worker thread, whose jump buffer the handler uses: block it here
     sigset_t alrm;
     sigemptyset(&alrm);
-    sigaddset(&alrm, SIGALRM);
+    sigaddset(&alrm, SIGVTALRM);
     pthread_sigmask(SIG_BLOCK, &alrm, nullptr);
     pthread_attr_t at;
     pthread_attr_init(&at);
